@@ -39,6 +39,8 @@ type reqCase struct {
 	Code    uint8  `json:"code"`
 	DevSeed uint64 `json:"dev_seed"`
 	Level   string `json:"level"`
+	// Cut > 0: the frame is delivered in two reads, Frame[:Cut] then Frame[Cut:]
+	Cut int `json:"cut,omitempty"`
 }
 
 func exception(frame []byte, code uint8) []byte {
@@ -171,8 +173,15 @@ func runAssembler(c reqCase) ([]string, error) {
 				panicked, pv = true, p
 			}
 		}()
-		buf := append([]byte(nil), c.Frame...)
-		out, _ = asm.ReceiveRead(context.Background(), buf, len(buf))
+		parts := [][]byte{c.Frame}
+		if c.Cut > 0 && c.Cut < len(c.Frame) {
+			parts = [][]byte{c.Frame[:c.Cut], c.Frame[c.Cut:]}
+		}
+		for _, part := range parts {
+			buf := append([]byte(nil), part...)
+			o, _ := asm.ReceiveRead(context.Background(), buf, len(buf))
+			out = append(out, o...)
+		}
 	}()
 	if panicked && !(c.Class == "valid" && c.Handler == "panic") {
 		return nil, fmt.Errorf("assembler panicked on request %x (handler %s): %v", []byte(c.Frame), c.Handler, pv)
@@ -249,8 +258,14 @@ func runServer(c reqCase) ([]string, error) {
 	defer conn.Close()
 	col := srv.Collect(conn)
 	_ = conn.SetWriteDeadline(time.Now().Add(5 * time.Second))
-	if _, err := conn.Write(c.Frame); err != nil {
-		return nil, fmt.Errorf("server did not read the request: %v", err)
+	parts := [][]byte{c.Frame}
+	if c.Cut > 0 && c.Cut < len(c.Frame) {
+		parts = [][]byte{c.Frame[:c.Cut], c.Frame[c.Cut:]}
+	}
+	for _, part := range parts {
+		if _, err := conn.Write(part); err != nil {
+			return nil, fmt.Errorf("server did not read the request: %v", err)
+		}
 	}
 	out := col.WaitQuiet(80*time.Millisecond, 3*time.Second)
 	if len(out) == 0 && (c.Class == "valid" || c.Class == "unsupported" || c.Class == "out-of-range") && c.Handler != "panic" {
@@ -261,6 +276,12 @@ func runServer(c reqCase) ([]string, error) {
 	labels, err := checkReply(c, out, closed && c.Handler == "panic")
 	if err != nil {
 		return labels, err
+	}
+	if !closed {
+		// a following valid request on the same connection must be answered normally (no leftovers)
+		if err := exchange(conn, col, len(out), byReq, byWant); err != nil {
+			return labels, fmt.Errorf("same connection, valid request following %x (reply %x): %v", []byte(c.Frame), out, err)
+		}
 	}
 	// the process survived; the bystander still works; a new connection is still accepted
 	if err := exchange(by, byCol, len(byWant), byReq, byWant); err != nil {
@@ -379,6 +400,15 @@ func genReq(t *rapid.T, level string) reqCase {
 			r.Payload = harness.Bytes(7, n)
 		}
 		c.Frame = spec.EncodeRequest(spec.TCP, r)
+	}
+	if rapid.IntRange(0, 2).Draw(t, "split") == 0 && len(c.Frame) > 1 {
+		c.Cut = rapid.IntRange(1, len(c.Frame)-1).Draw(t, "cut")
+		if rapid.Bool().Draw(t, "cut_hot") {
+			c.Cut = rapid.SampledFrom([]int{6, 7, 8, 9, 10, 11, 12}).Draw(t, "cut_h")
+			if c.Cut >= len(c.Frame) {
+				c.Cut = len(c.Frame) - 1
+			}
+		}
 	}
 	return c
 }
